@@ -40,10 +40,14 @@ fn change_one_char(s: &str) -> String {
 }
 
 fn session(name: &str, user: &str, pass: &str, seed: u64) -> Session {
-    let n = srp::n_builtin();
     let salt = refmodel::ctr_array::<32>(seed, &format!("c02-salt-{name}"));
     let b = refmodel::ctr_array::<32>(seed, &format!("c02-b-{name}"));
     let a = refmodel::ctr_array::<32>(seed, &format!("c02-a-{name}"));
+    session_from(name, user, pass, salt, b, a)
+}
+
+fn session_from(name: &str, user: &str, pass: &str, salt: [u8; 32], b: [u8; 32], a: [u8; 32]) -> Session {
+    let n = srp::n_builtin();
     let (un, pn) = (refmodel::misc::normalize(user).unwrap(), refmodel::misc::normalize(pass).unwrap());
     let v = srp::verifier(&un, &pn, &salt, 7, &n);
     let b_pub = srp::server_public(&v, &U::from_le_bytes(&b), 7, &n).to_le_padded::<32>();
@@ -397,4 +401,16 @@ pub fn run(tier: Tier, seed: u64) -> i32 {
     report.cap_hit("deviation bound 1 for most sessions, 2 for a few; session alphabet finite");
     report.assume("the oracle is an exact equality test against the reference proofs, so an accidental hash match cannot cause a false alarm");
     report.finish()
+}
+
+/// Replay of one recorded execution (no explorer): the stored choice sequence is fed to the real exchange.
+pub fn replay(r: &serde_json::Value) -> Result<String, String> {
+    let g = |k: &str| r[k].as_str().unwrap_or_else(|| mc::util::machinery_error("C02 replay: field missing"));
+    let s = session_from(g("session"), r["registered"][0].as_str().unwrap(), r["registered"][1].as_str().unwrap(), mc::util::unhex_n::<32>(g("salt")), mc::util::unhex_n::<32>(g("b")), mc::util::unhex_n::<32>(g("a")));
+    if r["choices"].is_array() {
+        let choices: Vec<u32> = r["choices"].as_array().unwrap().iter().map(|c| c.as_u64().unwrap() as u32).collect();
+        exchange(&s, &mut Chooser::replay(&choices))
+    } else {
+        multi_bit(&s, true).map(|n| format!("{n} alterations refused")).map_err(|e| e.2)
+    }
 }
